@@ -376,6 +376,14 @@ class Ctx:
             try:
                 with open(outp) as f:
                     res = json.load(f)
+                if isinstance(res, dict):
+                    # Go marshals nil slices/maps as null; checks use res.get(key, [])
+                    for k in ("samples", "mismatches", "files", "notes"):
+                        if res.get(k, 0) is None:
+                            res[k] = []
+                    for k in ("counters", "consts"):
+                        if res.get(k, 0) is None:
+                            res[k] = {}
             except Exception as ex:
                 raise Infra("unreadable harness result from %s %s: %s" % (pkg, run, ex))
         if p.returncode in (124, 137):
